@@ -29,7 +29,79 @@ class _Return(Exception):
         self.v = v
 
 
+class Aff:
+    """c + k * q for one integer parameter q ranging over a ray: q >= 1 (sign +1) or q <= -1 (sign -1).  Lets a closed form that
+    splits its argument into a quotient and a remainder be decoded for *all* quotients at once: the remainder part is folded
+    concretely, the quotient stays a symbol, and every operation either keeps the value affine in q or is decided uniformly for
+    the whole ray -- otherwise NotConst.  32-bit wrap-around is not modelled for affine values (stated as an assumption)."""
+    __slots__ = ("c", "k", "sg")
+
+    def __init__(self, c, k, sg):
+        self.c, self.k, self.sg = c, k, sg
+
+    def rng(self):
+        """(lo, hi) of the value over the ray (or the bounded interval), None for unbounded"""
+        if isinstance(self.sg, tuple):
+            a, b = self.c + self.k * self.sg[0], self.c + self.k * self.sg[1]
+            return (min(a, b), max(a, b))
+        at1 = self.c + self.k * self.sg           # q = sg (the end of the ray)
+        grows = self.k * self.sg                  # change per step away from the end
+        if grows > 0:
+            return (at1, None)
+        if grows < 0:
+            return (None, at1)
+        return (at1, at1)
+
+    def __repr__(self):
+        return "%d%+d*q" % (self.c, self.k)
+
+
+class Split(Exception):
+    """the parameter's interval has to be split at args[0]: [lo, t-1] and [t, hi] behave differently"""
+
+
+def _undecided(dom, pred, why):
+    """on a bounded interval: find where the predicate flips and ask for a split; on a ray: not decodable"""
+    if isinstance(dom, tuple):
+        lo, hi = dom
+        p0 = pred(lo)
+        for t in range(lo + 1, hi + 1):
+            if pred(t) != p0:
+                raise Split(t)
+    raise NotConst(why)
+
+
+def run_split(fn, args_for, lo, hi, calls=None):
+    """fold fn with one parameter t ranging over [lo, hi]; args_for(t_value) builds the argument list (t_value is an Aff or an int).
+    Returns [((lo, hi), result)] for the pieces on which the function is one affine form (or a constant)."""
+    out = []
+    work = [(lo, hi)]
+    while work:
+        a, b = work.pop()
+        if a > b:
+            continue
+        try:
+            tv = Aff(0, 1, (a, b)) if a < b else a
+            res = Folder(fn, calls=calls).run(args_for(tv))
+            out.append(((a, b), res))
+        except Split as sp:
+            t = sp.args[0]
+            work.append((a, t - 1))
+            work.append((t, b))
+    return sorted(out, key=lambda x: x[0])
+
+
+def _aff(v, sg):
+    return v if isinstance(v, Aff) else Aff(v, 0, sg)
+
+
+def _norm(v):
+    return v.c if isinstance(v, Aff) and v.k == 0 else v
+
+
 def _wrap(types, n, v):
+    if isinstance(v, Aff):
+        return v
     if types is None or n.get("t") is None:
         return v
     t = types[n["t"]]
@@ -47,16 +119,95 @@ class Folder:
         self.types = fn.tu.types
         self.calls = calls or {}
         self.max_steps = max_steps
+        self._lay = {}
+
+    def truth(self, v):
+        if not isinstance(v, Aff):
+            return bool(v)
+        lo, hi = v.rng()
+        if (lo is not None and lo > 0) or (hi is not None and hi < 0):
+            return True
+        if lo == 0 and hi == 0:
+            return False
+        _undecided(v.sg, lambda t: (v.c + v.k * t) != 0, "truth of %r depends on the quotient" % v)
 
     # ------------------------------------------------------------ expressions
     def lv(self, n):
+        """lvalue key: decl id, or (decl id, member path) for a member of a record held in a variable"""
         n0 = n
         n = strip(n)
         while n is not None and n.get("k") in CASTS and n.get("c"):
             n = strip(n["c"][0])
         if n is not None and n.get("k") == "DeclRefExpr" and n.get("dk") in ("var", "parm"):
             return n["d"]
+        if n is not None and n.get("k") == "MemberExpr":
+            names = []
+            x = n
+            while x is not None and x.get("k") == "MemberExpr":
+                if x.get("n"):
+                    names.append(x["n"])
+                x = strip(x["c"][0]) if x.get("c") else None
+                while x is not None and x.get("k") in CASTS and x.get("c"):
+                    x = strip(x["c"][0])
+            if x is not None and x.get("k") == "DeclRefExpr" and x.get("dk") in ("var", "parm") and not n.get("arrow"):
+                return (x["d"], ".".join(reversed(names)), x.get("t"))
         raise NotConst("lvalue %s" % (n0.get("k") if n0 else None))
+
+    def load(self, key):
+        if not isinstance(key, tuple):
+            return self.env[key]
+        d, path, t = key
+        rec = self.env.get(d)
+        if not isinstance(rec, dict):
+            raise NotConst("member of a value that is not a record")
+        if path in rec:
+            return rec[path]
+        # a union view (the packed word) or a member that was never written: assemble it from the leaves stored so far
+        lay = self.layout(t)
+        if lay is None or path not in lay:
+            raise NotConst("member %s" % path)
+        off, w = lay[path]
+        tot, hit = 0, False
+        for p2, v in rec.items():
+            if p2 in lay and p2 != path:
+                o2, w2 = lay[p2]
+                if off <= o2 and o2 + w2 <= off + w:
+                    hit = True
+                    tot = self.arith({}, "+", tot, self.arith({}, "*", v, 1 << (o2 - off)))
+        if not hit:
+            return 0
+        return tot
+
+    def store(self, key, v):
+        if not isinstance(key, tuple):
+            self.env[key] = dict(v) if isinstance(v, dict) else v
+            return
+        d, path, t = key
+        rec = self.env.setdefault(d, {})
+        if not isinstance(rec, dict):
+            raise NotConst("member of a value that is not a record")
+        lay = self.layout(t)
+        if lay is not None and path in lay:
+            # writing a member invalidates what overlaps it
+            off, w = lay[path]
+            for p2 in list(rec):
+                if p2 in lay and p2 != path:
+                    o2, w2 = lay[p2]
+                    if not (o2 + w2 <= off or off + w <= o2):
+                        del rec[p2]
+        rec[path] = v
+
+    def layout(self, t):
+        if t is None:
+            return None
+        ty = self.types[t]
+        rid = ty.get("rec")
+        if rid is None:
+            return None
+        if rid not in self._lay:
+            rec = self.fn.tu.recs_by_id.get(rid)
+            self._lay[rid] = {p_: (o, w) for p_, o, w, sg in self.fn.tu.flatten_record(rec)} if rec else None
+        return self._lay[rid]
 
     def ev(self, n):
         self.steps += 1
@@ -85,6 +236,10 @@ class Folder:
                 if n.get("ck") == "IntegralCast" or k == "CStyleCastExpr":
                     return _wrap(self.types, n, v)
             return v
+        if k == "MemberExpr":
+            return self.load(self.lv(n))
+        if k == "InitListExpr":
+            return {}
         if k == "CallExpr":
             cal = n.get("callee")
             if cal == "__builtin_expect":
@@ -99,16 +254,22 @@ class Folder:
             op = n.get("op")
             if op in ("++", "--"):
                 d = self.lv(n["c"][0])
-                old = env[d]
+                old = self.load(d)
+                if isinstance(old, Aff):
+                    new = Aff(old.c + (1 if op == "++" else -1), old.k, old.sg)
+                    self.store(d, new)
+                    return old if n.get("postfix") else new
                 new = _wrap(self.types, n["c"][0] if n["c"][0].get("t") is not None else n, old + (1 if op == "++" else -1))
-                env[d] = new
+                self.store(d, new)
                 return old if n.get("postfix") else new
             if op == "__extension__":
                 return self.ev(n["c"][0])
             v = self.ev(n["c"][0])
             if op == "!":
-                return int(not v)
+                return int(not self.truth(v))
             if op == "-":
+                if isinstance(v, Aff):
+                    return Aff(-v.c, -v.k, v.sg)
                 return _wrap(self.types, n, -v)
             if op == "~":
                 return _wrap(self.types, n, ~v)
@@ -123,12 +284,13 @@ class Folder:
             op = n.get("op")
             if op == "=":
                 d = self.lv(n["c"][0])
-                env[d] = self.ev(n["c"][1])
-                return env[d]
+                v = self.ev(n["c"][1])
+                self.store(d, v)
+                return v
             if op == "&&":
-                return int(bool(self.ev(n["c"][0])) and bool(self.ev(n["c"][1])))
+                return int(self.truth(self.ev(n["c"][0])) and self.truth(self.ev(n["c"][1])))
             if op == "||":
-                return int(bool(self.ev(n["c"][0])) or bool(self.ev(n["c"][1])))
+                return int(self.truth(self.ev(n["c"][0])) or self.truth(self.ev(n["c"][1])))
             if op == ",":
                 self.ev(n["c"][0])
                 return self.ev(n["c"][1])
@@ -136,19 +298,79 @@ class Folder:
             return self.arith(n, op, a, b)
         if k == "CompoundAssignOperator":
             d = self.lv(n["c"][0])
-            r = self.arith(n, n["op"][:-1], env[d], self.ev(n["c"][1]))
-            env[d] = _wrap(self.types, n["c"][0], r) if n["c"][0].get("t") is not None else r
-            return env[d]
+            r = self.arith(n, n["op"][:-1], self.load(d), self.ev(n["c"][1]))
+            r = _wrap(self.types, n["c"][0], r) if n["c"][0].get("t") is not None and not isinstance(d, tuple) else r
+            self.store(d, r)
+            return r
         if k == "ConditionalOperator":
-            return self.ev(n["c"][1]) if self.ev(n["c"][0]) else self.ev(n["c"][2])
+            return self.ev(n["c"][1]) if self.truth(self.ev(n["c"][0])) else self.ev(n["c"][2])
         if k == "BinaryConditionalOperator":
             v = self.ev(n["c"][0])
-            return v if v else self.ev(n["c"][-1])
+            return v if self.truth(v) else self.ev(n["c"][-1])
         if k == "OpaqueValueExpr" and n.get("c"):
             return self.ev(n["c"][0])
         raise NotConst(k)
 
+    def arith_aff(self, op, a, b):
+        sg = a.sg if isinstance(a, Aff) else b.sg
+        a, b = _aff(a, sg), _aff(b, sg)
+        if op == "+":
+            return _norm(Aff(a.c + b.c, a.k + b.k, sg))
+        if op == "-":
+            return _norm(Aff(a.c - b.c, a.k - b.k, sg))
+        if op == "*":
+            if a.k == 0:
+                return _norm(Aff(a.c * b.c, a.c * b.k, sg))
+            if b.k == 0:
+                return _norm(Aff(a.c * b.c, a.k * b.c, sg))
+            raise NotConst("product of two quotient-dependent values")
+        if op in ("/", "%"):
+            if b.k != 0 or b.c <= 0:
+                raise NotConst("division by a quotient-dependent or non-positive value")
+            m = b.c
+            if a.k % m:
+                raise NotConst("the quotient's coefficient %d is not a multiple of the divisor %d" % (a.k, m))
+            lo, hi = a.rng()
+            if lo is not None and lo >= 0:
+                qc, rc = a.c // m, a.c % m                      # floor
+            elif hi is not None and hi <= 0:
+                qc = -((-a.c) // m)                             # towards zero for a non-positive total
+                rc = a.c - m * qc
+            else:
+                _undecided(sg, lambda t: (a.c + a.k * t) >= 0, "sign of the dividend %r depends on the quotient" % a)
+            return _norm(Aff(qc, a.k // m, sg)) if op == "/" else rc
+        if op in ("==", "!=", "<", ">", "<=", ">="):
+            d = Aff(a.c - b.c, a.k - b.k, sg)
+            lo, hi = d.rng()
+            def known(pred_lo, pred_hi):
+                return None
+            if op in ("<", ">="):
+                if hi is not None and hi < 0:
+                    r = True
+                elif lo is not None and lo >= 0:
+                    r = False
+                else:
+                    _undecided(sg, lambda t: (d.c + d.k * t) < 0, "comparison of %r with %r depends on the quotient" % (a, b))
+                return int(r if op == "<" else not r)
+            if op in (">", "<="):
+                if lo is not None and lo > 0:
+                    r = True
+                elif hi is not None and hi <= 0:
+                    r = False
+                else:
+                    _undecided(sg, lambda t: (d.c + d.k * t) > 0, "comparison of %r with %r depends on the quotient" % (a, b))
+                return int(r if op == ">" else not r)
+            # == / !=
+            if (lo is not None and lo > 0) or (hi is not None and hi < 0):
+                return int(op == "!=")
+            if lo == 0 and hi == 0:
+                return int(op == "==")
+            _undecided(sg, lambda t: (d.c + d.k * t) == 0, "equality of %r and %r depends on the quotient" % (a, b))
+        raise NotConst("operator %s on a quotient-dependent value" % op)
+
     def arith(self, n, op, a, b):
+        if isinstance(a, Aff) or isinstance(b, Aff):
+            return self.arith_aff(op, a, b)
         if op == "+":
             r = a + b
         elif op == "-":
@@ -192,16 +414,21 @@ class Folder:
                 if v.get("k") == "Var":
                     if kids(v):
                         val = self.ev(kids(v)[0])
-                        self.env[v["d"]] = _wrap(self.types, v, val) if v.get("t") is not None else val
+                        if isinstance(val, dict):
+                            self.env[v["d"]] = dict(val)
+                        else:
+                            self.env[v["d"]] = _wrap(self.types, v, val) if v.get("t") is not None else val
                     else:
                         self.env.setdefault(v["d"], 0)
         elif k == "IfStmt":
-            if self.ev(s["c"][0]):
+            if self.truth(self.ev(s["c"][0])):
                 self.st(s["c"][1])
             elif len(s["c"]) > 2 and s["c"][2] is not None:
                 self.st(s["c"][2])
         elif k == "SwitchStmt":
             v = self.ev(s["c"][0])
+            if isinstance(v, Aff):
+                raise NotConst("switch over a quotient-dependent value")
             groups = switch_cases(s)
             start = None
             for i, g in enumerate(groups):
@@ -232,7 +459,7 @@ class Folder:
                 body, cond, inc = s["c"][0], s["c"][1], None
             first = k == "DoStmt"
             try:
-                while first or cond is None or self.ev(cond):
+                while first or cond is None or self.truth(self.ev(cond)):
                     first = False
                     try:
                         self.st(body)
@@ -261,7 +488,7 @@ class Folder:
 
     def run(self, args):
         """args: values of the parameters in order -> returned value"""
-        self.env = {p["d"]: v for p, v in zip(self.fn.params, args)}
+        self.env = {p["d"]: (dict(v) if isinstance(v, dict) else v) for p, v in zip(self.fn.params, args)}
         self.steps = 0
         try:
             self.st(self.fn.body)
